@@ -122,6 +122,9 @@ func ReadBPTreeRootIdxAt(fd *os.File, off int64) (*BPTreeRootIdx, error) {
 
 // Persistence writes BPTreeRootIdx entry to the File starting at byte offset off.
 func (bri *BPTreeRootIdx) Persistence(path string, offset int64, syncEnable bool) (number int, err error) {
+	if h, _, err := verifFS("open", path, 0, nil); h {
+		return 0, err
+	}
 	fd, err := os.OpenFile(path, os.O_CREATE|os.O_RDWR, 0644)
 	defer fd.Close()
 	if err != nil {
@@ -129,6 +132,9 @@ func (bri *BPTreeRootIdx) Persistence(path string, offset int64, syncEnable bool
 	}
 
 	data := bri.Encode()
+	if h, n, err := verifFS("write", path, offset, data); h {
+		return n, err
+	}
 
 	n, err := fd.WriteAt(data, offset)
 	if err != nil {
@@ -136,6 +142,9 @@ func (bri *BPTreeRootIdx) Persistence(path string, offset int64, syncEnable bool
 	}
 
 	if syncEnable {
+		if h, _, err := verifFS("sync", path, 0, nil); h {
+			return 0, err
+		}
 		err = fd.Sync()
 		if err != nil {
 			return 0, err
